@@ -12,9 +12,23 @@ import (
 	"github.com/attestantio/go-eth2-client/spec/phase0"
 	"github.com/attestantio/vouch/internal/vnd"
 	"github.com/attestantio/vouch/internal/vstub"
+	"github.com/attestantio/vouch/services/accountmanager"
 	"github.com/attestantio/vouch/services/beaconblockproposer"
+	"github.com/attestantio/vouch/services/blockrelay"
+	"github.com/attestantio/vouch/services/chaintime"
+	nullmetrics "github.com/attestantio/vouch/services/metrics/null"
+	"github.com/rs/zerolog"
 	e2wtypes "github.com/wealdtech/go-eth2-wallet-types/v2"
 )
+
+// c11New builds the service through its constructor.
+func c11New(ct chaintime.Service, acc accountmanager.ValidatingAccountsProvider, cfg blockrelay.ExecutionConfigProvider, submitters []eth2client.ProposalPreparationsSubmitter) *Service {
+	s, err := New(context.Background(), WithLogLevel(zerolog.Disabled), WithMonitor(&nullmetrics.Service{}),
+		WithChainTimeService(ct), WithValidatingAccountsProvider(acc), WithExecutionConfigProvider(cfg),
+		WithProposalPreparationsSubmitters(submitters))
+	vnd.Assert(err == nil && s != nil, "C11.new.accepted")
+	return s
+}
 
 const (
 	pcResolved = iota
@@ -103,11 +117,12 @@ func VerifC11_Preparations() {
 		cfg.fee[tag] = bellatrix.ExecutionAddress(vnd.Addr("fee-recipient"))
 	}
 	nodes := []*c11Node{{name: "node-a"}, {name: "node-b"}}
-	s := &Service{chainTimeService: ct, validatingAccountsProvider: acc, executionConfigProvider: cfg}
+	var submitters []eth2client.ProposalPreparationsSubmitter
 	for _, nd := range nodes {
 		nd.mode = vnd.Choose("node", 3)
-		s.proposalPreparationsSubmitters = append(s.proposalPreparationsSubmitters, nd)
+		submitters = append(submitters, nd)
 	}
+	s := c11New(ct, acc, cfg, submitters)
 	err := s.UpdatePreparations(context.Background())
 	vnd.Assert(err == nil, "C11.preparations.no-error")
 	vnd.Assert(vnd.Quiesce() == 0, "C11.preparations.goroutine-finishes")
